@@ -19,6 +19,12 @@ def phase_methods(F, prefix):
             ins = b.d.get("sig_inputs") or []
             if ins and ins[0].replace(" ", "").startswith("&mut") and "Decoder" in ins[0]:
                 out.append(p)
+    # a method that only sequences other steps (e.g. `iterate` = check pass; variable pass; syndrome test) is not a step itself:
+    # it is expanded at its call site
+    def calls_steps(path):
+        b = F.bodies[path]
+        return any((callee(n) or "") in out and (callee(n) or "") != path for n in walk(b.value) if n.get("k") in ("call", "mcall")) if b.hir else False
+    out = [p for p in out if not calls_steps(p)]
     return sorted(out)
 
 
@@ -134,3 +140,42 @@ def strip_to_field(n):
             cur = cur["recv"]
         else:
             return cur
+
+
+def flatten_positional(desc):
+    """a zip/enumerate tree of iterator descriptions -> (list of leaf descriptions, whether an enumerate is present).
+    zip(enumerate(A), B), enumerate(zip(A, B)), A.zip(B.zip(C)) ... all visit the same positions of the same sequences."""
+    leaves, enum = [], False
+    stack = [desc]
+    while stack:
+        d = stack.pop()
+        if isinstance(d, tuple) and d and d[0] == "iterdesc":
+            stack.append(d[1])
+        elif isinstance(d, tuple) and d and d[0] == "enumerate":
+            enum = True
+            stack.append(d[1])
+        elif isinstance(d, tuple) and d and d[0] == "zip" and len(d) == 3:
+            stack.append(d[1])
+            stack.append(d[2])
+        elif isinstance(d, tuple) and d and d[0] == "elems" and isinstance(d[1], tuple) and len(d[1]) == 2 and d[1][0] == "P":
+            leaves.append(("elems", d[1][1]))
+        elif isinstance(d, tuple) and d and d[0] == "elems" and not hasattr(d[1], "t") and not isinstance(d[1], tuple):
+            leaves.append(d)
+        else:
+            leaves.append(d)
+    return leaves, enum
+
+
+def loop_positional(loop):
+    """(index variable names that may denote the position, leaves, enumerated) of a traced loop entry"""
+    if loop[0] == "enumerate":
+        leaves, _ = flatten_positional(loop[2])
+        return {loop[1]}, leaves, True
+    if loop[0] == "iter":
+        leaves, enum = flatten_positional(loop[2])
+        h = loop[1] if isinstance(loop[1], str) else None
+        names = {h + "_idx"} if h else set()
+        if isinstance(loop[1], tuple):
+            names |= set(loop[1])
+        return names, leaves, enum
+    return set(), [], False
